@@ -114,6 +114,13 @@ def run(ctx):
                     viol.append((0, "judge", "a production of the generated table of %s is not an instance of the source rule of its left-hand side: %s" % (g, kv.get("badprod")),
                                  {"case": g, "spec": "%s t:" % gsrc.get(g, "?"), "result": kv},
                                  {"clause": "table-production-not-in-grammar", "kind": kv["kind"]}, True))
+            rt = kv.get("rawtie", "na")
+            if rt == "ok":
+                gram["rawtie_ok"] = gram.get("rawtie_ok", 0) + 1
+            elif rt.startswith("FAIL"):
+                viol.append((0, "corr", "ts_language_lookup disagrees with the raw parse-table rows of %s (the table the generator wrote is not the table the parser walks): %s" % (g, rt),
+                             {"case": g, "spec": "%s t:" % gsrc.get(g, "?"), "result": kv, "correspondence": "TsVerif.C03.rawLookup on the raw rows vs ts_language_lookup"},
+                             {"clause": "lookup-differs-from-raw-table", "kind": kv["kind"]}, True))
             if kv.get("rootsafe") == "true":
                 gram["rootSafe"] = gram.get("rootSafe", 0) + 1
             cpl = kv.get("complete", "na")
@@ -235,7 +242,7 @@ def run(ctx):
                 "strings: every token string up to the per-grammar bound L over the grammar's terminals, random derivations (6..1000 tokens) and 2 token-level mutations each, "
                 "grammar-directed documents for zoo grammars; non-trivial := error-free and the real tree uses >= 3 distinct productions; distinct by hash of (grammar source, string)",
         "samples": samples,
-        "grammars": {"tables": gram["tables"], "tableClosed": gram["closed"], "tableSafe": gram.get("tableSafe", 0),
+        "grammars": {"tables": gram["tables"], "tableClosed": gram["closed"], "tableSafe": gram.get("tableSafe", 0), "raw_rows_equal_ts_language_lookup(every state and symbol)": gram.get("rawtie_ok", 0),
                      "relOK(premise of parser_sound_per_grammar holds)": gram.get("relOK", 0), "rel_in_scope(failing relOK is a violation)": gram.get("rel_in_scope", 0), "rootSafe(premise of driver_sound; fails only with non-terminal extras)": gram.get("rootSafe", 0),
                      "coverOK(premise of grammar_cover holds)": gram.get("coverOK", 0), "completeOK(premise of table_complete holds)": gram.get("completeOK", 0),
                      "coverOK_and_completeOK(parser_complete and parser_sound both apply)": gram.get("both_halves", 0),
